@@ -17,6 +17,9 @@ impl Row { #[verifier::external_body] pub fn clone(&self) -> (r: Row) ensures r 
 impl Operations {
     /// the update calls received so far: (old row, new row, position)   (what a call does to each index: unit I-maint)
     pub uninterp spec fn updates(&self) -> Seq<(Row, Row, usize)>;
+    /// is there any user-defined or spatial index?
+    pub uninterp spec fn any_index(&self) -> bool;
+    #[verifier::external_body] pub fn has_indexes(&self) -> (r: bool) ensures r == self.any_index() { unimplemented!() }
     #[verifier::external_body]
     pub fn update_indexes_for_update(&mut self, catalog: &Catalog, table_name: &str, old_row: &Row, new_row: &Row, row_index: usize)
         ensures final(self).updates() == old(self).updates().push((*old_row, *new_row, row_index)) { unimplemented!() }
@@ -48,7 +51,10 @@ ITEMS = {
         rewrites=[('re', r'self\.get_table\(table_name\)\.and_then\(\|table\| table\.scan\(\)\.get\(row_index\)\.cloned\(\)\)', 'self.stored_row_at(table_name, row_index)', None)],
         contract='''
         ensures
-            final(self).operations.updates() == old(self).operations.updates().push((*old_row,
+            // nothing to maintain without any index ..
+            !old(self).operations.any_index() ==> final(self).operations.updates() == old(self).operations.updates(),
+            // .. otherwise the index layer gets the old row and the STORED row
+            old(self).operations.any_index() ==> final(self).operations.updates() == old(self).operations.updates().push((*old_row,
                 (match old(self).stored_at(table_name, row_index) { Some(s) => s, None => *new_row }), row_index)),
 '''),
 }
@@ -58,6 +64,6 @@ OBLIGATIONS = {
 }
 CANARIES = ['canary_upd']
 TRUSTED = [
-    'external_body Operations::update_indexes_for_update (a ghost log of the calls; its per-index effect: unit I-maint), Database::stored_row_at (get_table(..).and_then(|t| t.scan().get(i).cloned()): uninterpreted stored_at), Row::clone; Row, Catalog, Operations opaque; Database reduced to the fields read',
+    'external_body Operations::has_indexes (uninterpreted any_index: the index manager and the spatial index map are both empty), Operations::update_indexes_for_update (a ghost log of the calls; its per-index effect: unit I-maint), Database::stored_row_at (get_table(..).and_then(|t| t.scan().get(i).cloned()): uninterpreted stored_at), Row::clone; Row, Catalog, Operations opaque; Database reduced to the fields read',
     'that the executors call this AFTER Table::update_row (so that position i holds the new stored row) is outside this unit: UPDATE does (update/mod.rs), ON DUPLICATE KEY UPDATE does since fix 6956946f',
 ]
